@@ -199,8 +199,10 @@ def experiments(seed, tier, rng):
     for sub in (False, True):
         for pre in ([], ['duration']):
             for ki, key in enumerate(KEYS):
-                for twice in (False, True):
-                    if twice and not isinstance(key, (list, np.ndarray)) and key not in (slice(None, None, -1), slice(None)):
+                for twice in (False, True, 'prior'):
+                    if twice is True and not isinstance(key, (list, np.ndarray)) and key not in (slice(None, None, -1), slice(None)):
+                        continue
+                    if twice == 'prior' and (not pre or ki >= 8):
                         continue
 
                     def make(sub=sub):
@@ -210,6 +212,10 @@ def experiments(seed, tier, rng):
                         return e
 
                     def switch(obj, key=key, twice=twice):
+                        if twice == 'prior':   # the SAME parent was sliced (and the slice read) before
+                            _ = obj[1:5].duration
+                            _ = obj[0:2]
+                            return obj[key]
                         r = obj[key]
                         if twice:          # select, read, select again with a reordering of the same length
                             _ = r.duration
@@ -219,13 +225,13 @@ def experiments(seed, tier, rng):
                     def fresh(key=key, twice=twice):
                         k = np.asarray(key) if isinstance(key, list) else key
                         s2, d2 = st[k], du[k]
-                        if twice:
+                        if twice is True:
                             s2, d2 = s2[::-1], d2[::-1]
                         return ts.Epochs(s2, duration=d2, time_unit='s')
                     nm = ('sub:' if sub else '') + 'Epochs'
-                    kt = 'key%d%s' % (ki, 'r' if twice else '')
+                    kt = 'key%d%s' % (ki, 'p' if twice == 'prior' else ('r' if twice else ''))
                     line = 'C14 slice %s - %s %s' % (nm, il([0] if pre else []), kt)
-                    E.append(Sw('slice', nm, 'key=%s%s' % (str(key).replace('\n', ''), ' then [::-1]' if twice else ''), table, line, make, switch, fresh, pre,
+                    E.append(Sw('slice', nm, 'key=%s%s' % (str(key).replace('\n', ''), ' after earlier slices of the same parent' if twice == 'prior' else (' then [::-1]' if twice else '')), table, line, make, switch, fresh, pre,
                                 ['duration'], 'slice'))
     return E
 
@@ -410,6 +416,18 @@ def own_one(key):
         out.append([key, 'a slice of an Epochs subclass kept the parent\'s memoised result (%s)' % order])
     if len(sl.duration) != 3:
         out.append([key, 'a slice of an Epochs subclass kept the parent\'s duration (%s)' % order])
+    # the SAME parent sliced again, a slice of the slice, and the parent itself afterwards
+    d_parent = np.asarray(e.duration).copy()
+    _unread = e[0:2]                 # a slice that is never read (bookkeeping shared through the copied instance dict)
+    sl2 = e[1:3]
+    want2 = np.asarray(sl2.start) + np.asarray(sl2.stop - sl2.start) // 2
+    if len(sl2.duration) != 2 or np.asarray(sl2.midpoint).shape != want2.shape or not np.array_equal(np.asarray(sl2.midpoint), want2):
+        out.append([key + '/second-slice', 'the second slice taken from the same parent kept the parent\'s memoised results (%s)' % order])
+    sl3 = sl[0:2]
+    if len(sl3.duration) != 2 or np.asarray(sl3.midpoint).shape != (2,):
+        out.append([key + '/slice-of-slice', 'a slice of a slice kept memoised results of its parent (%s)' % order])
+    if not np.array_equal(np.asarray(e.duration), d_parent) or len(e.midpoint) != 6:
+        out.append([key + '/parent-changed', 'slicing changed the parent\'s own memoised results (%s)' % order])
     return out
 
 
